@@ -47,7 +47,7 @@ def run(ctx):
     for k in need:
         if not cls.get(k):
             ctx.vacuous.append("branch class never generated: " + k)
-    core.drive_validate(ctx, "bezlen", "Trace_Bezier", "Trace_Bezier_Z", "bezlen", n, ["bez_length", "bez_search", "bez_elev_f"], key=key,
+    core.drive_validate(ctx, "bezlen", "Trace_Bezier", "Trace_Bezier_Z", "bezlen", n, ["bez_length", "bez_search", "bez_elev_f", "bez_piece_box_f"], key=key,
                         corrupt=corrupt_len)
     ctx.assumptions = ["curves with irrational derivative roots are not examined (the witness must be rational); every "
                        "branch of the case analysis of the code is reached with rational roots",
@@ -62,7 +62,8 @@ def corrupt(rs):
 
 
 def corrupt_len(rs):
-    i = [k for k, r in enumerate(rs) if r["op"] == "bez_length"][len(rs) // 4]
+    idx = [k for k, r in enumerate(rs) if r["op"] == "bez_length"]
+    i = idx[len(idx) // 2]
     rs[i]["obs"][0] = sum(rs[i]["legs"]) + 100       # longer than the control polygon
     return i
 
